@@ -139,12 +139,19 @@ def run(cfg, V):
         # the quantity re-obtained from its own composing units / categories (list form) is the same quantity
         from barril.units import ObtainQuantity
 
+        from collections import OrderedDict
+
+        empty = q.MakeCopy(OrderedDict())
+        empty2 = q.CreateCopyInstance(OrderedDict())
+        nonfinite = [str(Scalar.CreateWithQuantity(q, f)) for f in (float("inf"), float("-inf"), float("nan"))]
         cu, cc = q.GetComposingUnits(), q.GetComposingCategories()
         again = ObtainQuantity(list(cu), list(cc)) if not isinstance(cu, str) else ObtainQuantity(cu, cc)
         arr = Array.CreateWithQuantity(q, [s.GetValue(), s.GetValue()])
         return {"unit": q.GetUnit(), "cat": q.GetCategory(), "qt": q.GetQuantityType(), "name": q.GetUnitName(), "joined": tuple(q.GetComposingUnitsJoiningExponents()),
                 "order": [(leaves[i][0], leaves[i][1], leaves[i][2], e[i]) for i in present], "rev": (rq.GetUnit(), rq.GetCategory(), rq.GetUnitName()),
-                "again": (again.GetUnit(), again.GetCategory(), again.GetQuantityType(), again == q), "repr": repr(s), "str": str(s), "arr_repr": repr(arr), "arr_str": str(arr),
+                "again": (again.GetUnit(), again.GetCategory(), again.GetQuantityType(), again == q), "repr": repr(s),
+                "obj_names": (s.GetUnitName(), arr.GetUnitName()), "empty": [(e.GetUnit(), e.GetCategory(), e.GetQuantityType(), e.GetUnitName()) for e in (empty, empty2)],
+                "nonfinite": nonfinite, "str": str(s), "arr_repr": repr(arr), "arr_str": str(arr),
                 "formatted": s.GetFormatted()}
     # repeated quantity type under two categories
     a, b, c = cfg["e"]
@@ -192,6 +199,9 @@ def props(cfg, T, obs):
                                                                                                               ref_makestr([(c, e) for _u, c, _n, e in rod]),
                                                                                                               ref_makestr([(n, e) for _u, _c, n, e in rod]))))
         P.append(("re-obtaining the quantity from its composing units and categories gives the same strings", obs["again"] == (obs["unit"], obs["cat"], obs["qt"], True)))
+        P.append(("GetUnitName() of the value objects is the quantity's unit name", obs["obj_names"] == (obs["name"], obs["name"])))
+        P.append(("a copy made with an EMPTY specification is the quantity without factors (all strings empty)", obs["empty"] == [("", "", "", "")] * 2))
+        P.append(("auxiliary, concrete (not solver-decided): str() of a Scalar holding inf / -inf / nan still shows the unit", all(t.endswith("[%s]" % obs["unit"]) for t in obs["nonfinite"])))
         u = obs["unit"]
         P.append(("repr/str/GetFormatted of Scalar and Array show the unit", ("'%s'" % u) in obs["repr"] and obs["str"].endswith("[%s]" % u) and obs["formatted"].endswith("[%s]" % u)
                   and obs["arr_repr"].endswith("%s)" % u) and obs["arr_str"].endswith("[%s]" % u)))
